@@ -551,9 +551,19 @@ def oracle(c, o):
         return "harness: " + "; ".join(o["problems"][:3])
     fam = c.get("fam", "mix")
     if fam == "seq":
-        msg = exact(c, o)[0]
+        msg, spec, pos, _ = exact(c, o)
         if msg:
             return msg
+        # a call that is due (its reply / request is queued) must complete: a task parked at the end of the history on a call
+        # the alternation rule admits means an earlier FAILED call changed something (e.g. consumed the queued reply)
+        # (added after the seeded change C10-rejected-req-send-drains-replies)
+        trows, _ = split_rows(c, o)
+        for t, prog in enumerate(c["progs"]):
+            if pos[t] < len(prog):
+                mine = [r for r in trows if r[0] == 0 and r[1] == t]
+                if len(mine) >= 2 and mine[-1][2] == 0 and mine[-2][2] == 0 and spec.expect(prog[pos[t]]) is not None:
+                    return ("%s: call #%d %s of task %d is due (what it waits for is queued) but never returned: an earlier call that "
+                            "failed with InvalidState did not leave the socket as it was" % (c["k"].upper(), pos[t] + 1, prog[pos[t]], t))
     if fam == "race":
         m = c["meta"]
         lo, hi = m["phase"]
